@@ -36,7 +36,7 @@ def required_cells(tier):
     for v in ("L/other-point", "L/direction-scaled", "L/direction-negated", "L/two-point-form", "PL/other-point",
               "PL/normal-scaled", "PL/normal-negated", "PL/three-point-form", "PL/two-vector-form", "S/swapped",
               "S/point-vector-form", "H/direction-scaled", "H/two-point-form", "PG/rotated", "PG/reflected", "PG/duplicates",
-              "PG/shuffled", "PH/face-order", "PH/face-orientation", "any/numeric-type", "any/move-and-back", "any/used-then-moved-into-place"):
+              "PG/shuffled", "PH/face-order", "PH/face-orientation", "any/numeric-type", "any/move-and-back", "any/used-then-moved-into-place", "any/negative-zero"):
         req["variant:" + v] = 15 if q else 300
     req["foreign-type"] = 100
     req["near-miss:coordinate -1 vs -2"] = 50
@@ -102,6 +102,9 @@ def _variant(G, d, r):
     """(label, object): another exact representation of the same set"""
     k = d[0]
     ch = r.random()
+    if ch < 0.05 and any(c == 0 for c in gen.coords_of(d)):
+        from ..desc import negzero
+        return "any/negative-zero", lift(d, None, negzero)
     if ch < 0.12:
         nt = r.choice(("Fraction", "int"))
         if nt == "int" and not _integral(d):
